@@ -172,6 +172,9 @@ func (s *Script) litDecls() string {
 		if len(v) == 1 {
 			sb.WriteString(fmt.Sprintf("(assert (= %s (chr %d)))\n", n, v[0]))
 		}
+		if len(v) == 2 {
+			sb.WriteString(fmt.Sprintf("(assert (= %s (cat (chr %d) (chr %d))))\n", n, v[0], v[1]))
+		}
 		if len(v) <= 16 {
 			for k := 0; k < len(v); k++ {
 				sb.WriteString(fmt.Sprintf("(assert (= (at %s %d) %d))\n", n, k, v[k]))
@@ -476,6 +479,10 @@ const preludeBytesAbs = `(declare-sort B 0)
 (assert (forall ((s B) (i Int) (j Int)) (! (=> (and (<= 0 i) (<= i j) (<= j (blen s))) (= (blen (sub s i j)) (- j i))) :pattern ((sub s i j)))))
 (assert (forall ((s B) (i Int) (j Int) (k Int)) (! (=> (and (<= 0 i) (<= i j) (<= j (blen s)) (<= 0 k) (< k (- j i))) (= (at (sub s i j) k) (at s (+ i k)))) :pattern ((at (sub s i j) k)))))
 (assert (forall ((s B)) (! (= (sub s 0 (blen s)) s) :pattern ((sub s 0 (blen s))))))
+(assert (forall ((s B) (a Int) (b Int) (c Int) (d Int)) (! (=> (and (<= 0 a) (<= a b) (<= b (blen s)) (<= 0 c) (<= c d) (<= d (- b a))) (= (sub (sub s a b) c d) (sub s (+ a c) (+ a d)))) :pattern ((sub (sub s a b) c d)))))
+(assert (forall ((x B)) (! (=> (= (blen x) 1) (= x (chr (at x 0)))) :pattern ((blen x)))))
+(assert (forall ((x B)) (! (=> (= (blen x) 2) (= x (cat (chr (at x 0)) (chr (at x 1))))) :pattern ((blen x)))))
+(assert (forall ((s B) (i Int)) (! (=> (and (<= 0 i) (<= i (blen s))) (= (sub s i i) eps)) :pattern ((sub s i i)))))
 (assert (forall ((x B) (y B) (k Int)) (! (= (at (cat x y) k) (ite (< k (blen x)) (at x k) (at y (- k (blen x))))) :pattern ((at (cat x y) k)))))
 (assert (forall ((s B) (k Int)) (! (=> (and (<= 0 k) (< k (blen s))) (and (<= 0 (at s k)) (<= (at s k) 255))) :pattern ((at s k)))))
 (assert (forall ((c Int)) (! (=> (and (<= 0 c) (<= c 255)) (and (= (blen (chr c)) 1) (= (at (chr c) 0) c))) :pattern ((chr c)))))
